@@ -82,7 +82,8 @@ def gen_layout(rng, batch):
         if batch == 'persistent' and not feats & set(PERSISTENT_FEATURES):
             feats.add(rng.choice(PERSISTENT_FEATURES))
     b = LayoutBuilder(rng)
-    basename = rng.choice(['base', 'base', 'doc', 'in', 'Base', 'Proj', 'paper:v2', 'my docs', 'a,b', 'x;y'])
+    basename = rng.choice(['base', 'base', 'doc', 'in', 'Base', 'Proj', 'paper:v2', 'my docs', 'a,b', 'x;y',
+                           u'caf\u00e9', u'cafe\u0301', u'\u00c5ngstr\u00f6m', u'\ufb01le'])
     parent = W + ('/p' if 'deep_base' in feats else '')
     base = parent + '/' + basename
     b.d(W)
@@ -130,6 +131,18 @@ def gen_layout(rng, batch):
         outs.append(b.f(pre + '/a.tex') and pre + '/a.tex')
         b.d(parent + '/' + parts[-1])
         outs.append(b.f(parent + '/' + parts[-1] + '/secret.tex') and parent + '/' + parts[-1] + '/secret.tex')
+    if any(ord(ch) > 127 for ch in basename):
+        # siblings whose names are the same text in another unicode normalisation form (or its
+        # compatibility form): different directories for the kernel
+        import unicodedata
+        forms = set(unicodedata.normalize(f, basename) for f in ('NFC', 'NFD', 'NFKC', 'NFKD')) - {basename}
+        for v in sorted(forms)[:2]:
+            sd = parent + '/' + v
+            b.d(sd)
+            sibs.append(sd)
+            outs.append(b.f(sd + '/secret.tex') and sd + '/secret.tex')
+            outs.append(b.f(sd + '/a.tex') and sd + '/a.tex')
+            b.l(base + '/nf%d' % len(sibs), sd)
     if 'case_sibling' in feats:
         # siblings whose names differ from the directory's only in letter case
         variants = [v for v in (basename.lower(), basename.upper(), basename.capitalize(), basename.swapcase())
@@ -408,6 +421,12 @@ def gen_name(rng, fs, res, basenode, layout):
         name = name.replace('/', '//', 1)
     elif y < 0.12 and not name.startswith('/'):
         name = layout['base'] + '/' + name
+    elif y < 0.19 and any(ord(ch) > 127 for ch in layout['base']):
+        import unicodedata
+        bn = layout['base'].rsplit('/', 1)[1]
+        v = unicodedata.normalize(rng.choice(['NFC', 'NFD', 'NFKC', 'NFKD']), bn)
+        name = rng.choice(['../' + v + '/secret', '../' + v + '/a.tex', layout['base'].rsplit('/', 1)[0] + '/' + v + '/secret.tex',
+                           'nf1/secret', 'nf2/a'])
     elif y < 0.16:
         bn = layout['base'].rsplit('/', 1)[1]
         name = '../' + bn + rng.choice(['2', '.d', '_old', 'x', '', '/../' + bn + '2']) + '/' + \
